@@ -86,13 +86,14 @@ def p_first(L, form):
         cover("rejected")
 
 
-def p_close(n, skip=False):
+def p_close(n, skip=False, masked=False):
     """close frame with an arbitrary 16-bit status code and an n-byte arbitrary reason"""
     quiet_logging()
     Proto, Payload, Closed = _excs()
     code = sx.sym_int("code", 16)
     reason = sx.sym_bytes("r", n)
-    sock = FakeSock([server_frame(1, 8, sx.to_bytes_be(code, 2) + reason), "eof"])
+    key = sx.sym_bytes("mk", 4) if masked else None  # the library accepts masked inbound frames: judged on the unmasked body
+    sock = FakeSock([server_frame(1, 8, sx.to_bytes_be(code, 2) + reason, key), "eof"])
     ws = new_ws(sock, skip_utf8_validation=skip)
     try:
         op, fr = ws.recv_data_frame(True)
@@ -265,6 +266,18 @@ def p_reconnect(lost):
         cover("re-waiting")
 
 
+def p_resume(form, masked):
+    """a legal frame with a 16-/64-bit length whose header is interrupted by a receive timeout (every cut position) is ACCEPTED
+    after the retry, and so is the frame that follows (C02's R-resume, shared)"""
+    from .c02 import r_resume
+    return r_resume(form, masked)
+
+
+def p_resume2(form):
+    from .c02 import r_resume2
+    return r_resume2(form)
+
+
 def obligations(tier):
     thorough = tier == "thorough"
     first = [dict(L=L, form=7) for L in (0, 1, 2, 3, 125)] + [dict(L=L, form=16) for L in (0, 2, 125, 126, 300)] + \
@@ -282,7 +295,7 @@ def obligations(tier):
                           "close code a 16-bit variable where the body has one",
                    must_cover=["delivered", "rejected", "waiting"], budget_s=900,
                    kernel=["ABNF.validate", "ABNF._is_valid_close_status", "continuous_frame.validate", "WebSocket.recv_data_frame"]),
-        Obligation("P-close", p_close, [dict(n=n) for n in range(0, 5 if thorough else 4)] + [dict(n=n, skip=True) for n in (0, 1, 2)],
+        Obligation("P-close", p_close, [dict(n=n) for n in range(0, 5 if thorough else 4)] + [dict(n=n, skip=True) for n in (0, 1, 2)] + [dict(n=n, masked=True) for n in (0, 1)],
                    bounds="all 65536 status codes (one 16-bit variable) x reasons of 0..%d arbitrary bytes" % (4 if thorough else 3),
                    must_cover=["accepted", "rejected"], budget_s=900, kernel=["ABNF.validate", "_is_valid_close_status", "validate_utf8"]),
         Obligation("P-seq", p_seq, seq, bounds="all histories of k<=%d frames over {text,binary,continuation}xFIN, ping, pong from an idle "
@@ -290,6 +303,12 @@ def obligations(tier):
                    kernel=["continuous_frame.validate", "continuous_frame.add", "is_fire", "extract", "recv_data_frame"]),
         Obligation("P-mid", p_ctrl_mid, mid, bounds="close/ping/pong with L in {0,1,2,125,126}, FIN 0/1 between two fragments of a message",
                    must_cover=["mid-bad", "mid-ok"], kernel=["ABNF.validate", "recv_data_frame"]),
+        Obligation("P-resume", p_resume, [dict(form=f, masked=m) for f in (16, 64) for m in (0, 1)],
+                   bounds="legal 16-/64-bit length frames with one receive timeout after every possible number of header bytes, then retried",
+                   must_cover=["resumed"], kernel=["frame_buffer.recv_frame (stage flags)", "recv_length", "ABNF.validate"]),
+        Obligation("P-resume2", p_resume2, [dict(form=f) for f in (16, 64)],
+                   bounds="as P-resume with two partial reads before the timeout", must_cover=["resumed2"],
+                   kernel=["frame_buffer.recv_frame (stage flags)", "recv_strict"]),
         Obligation("P-reconnect", p_reconnect, [dict(lost=l) for l in ("between-fragments", "inside-frame", "inside-second-fragment")],
                    bounds="connection lost (end of stream) after a non-final fragment / inside a frame / inside a second fragment, connect() "
                           "again on the same object with or without close() in between (solver choice); first frame of the new connection: "
